@@ -199,7 +199,7 @@ def internal_cases(res: Result):
     child_cfg = {"id": "kid", "initial": "k", "states": {"k": {"entry": [
         {"type": "xstate.escalate", "params": {"error": "E"}}]}}}
 
-    def make(with_wild):
+    def make(with_wild, exact=True):
         w = dict(wild) if with_wild else {}
         cfg = {
             "id": "m", "initial": "idle", "on": dict(w),
@@ -219,6 +219,11 @@ def internal_cases(res: Result):
                         "entry": [{"type": "xstate.spawnChild",
                                    "params": {"src": "kid", "id": "kid1"}}]},
             }}
+        if not exact:
+            # nobody names the engine-raised event: it must then be nobody's business at all
+            del cfg["states"]["comp"]["onDone"]
+            del cfg["states"]["inv"]["invoke"]["onDone"]
+            del cfg["states"]["esc"]["on"]["xstate.error.actor.m:kid1"]
         logic = MachineLogic(actions={n: mk(n) for n in names},
                              services={"ok": svc_ok, "bad": svc_bad,
                                        "kid": create_machine(child_cfg, logic=MachineLogic())})
@@ -244,6 +249,35 @@ def internal_cases(res: Result):
                           "%s: engine-raised %s event also ran %r" % (engine, fam, stray),
                           {"engine": engine, "fired": got})
 
+    # without an exact handler: wildcards and partial keys are all there is, and none may fire
+    for ev, exact, fam in scen:
+        if fam not in ("done.state", "done.invoke", "xstate.error.actor"):
+            continue
+        for engine in ("sync", "async"):
+            del fired[:]
+            if engine == "sync":
+                it = SyncInterpreter(make(True, exact=False)).start()
+                it.send(ev)
+                time.sleep(0.08 if fam == "xstate.error.actor" else 0.0)
+                it.stop()
+            else:
+                async def body0():
+                    import asyncio
+                    it2 = Interpreter(make(True, exact=False))
+                    await it2.start()
+                    await it2.send(ev)
+                    await drain(it2)
+                    await asyncio.sleep(0.05)
+                    await drain(it2)
+                    await it2.stop()
+                run_virtual(body0)
+            res.evaluations += 1
+            res.count("internal-unhandled.%s.%s" % (engine, fam))
+            if fired:
+                res.violation("C20:unhandled-internal-%s-caught-by-%s" % (
+                    fam, "wildcard" if "wild" in fired else "partial"),
+                    "%s: engine-raised %s event that nobody names ran %r" % (engine, fam, fired),
+                    {"engine": engine, "fired": list(fired)})
     for with_wild in (True, False):
         for ev, exact, fam in scen:
             # sync
